@@ -337,6 +337,9 @@ class C14(base.Engine):
             run = run_one(case, False, timeout=150)
         verdict, sig, detail, stats = judge(case, ref, run)
         stats['digest'] = driver.events_digest(run.events)
+        stats['sim_s'] = sum(o.get('ns', 0) for o in case['ops'] if o['op'] == 'advance') / 1e9 + \
+            4.0 * sum(1 for o in case['ops'] if o['op'] == 'census')
+        stats['env'] = case.get('env')
         return {'verdict': verdict, 'sig': sig, 'detail': detail, 'stats': stats}
 
     # ------------------------------------------------------------------
@@ -519,6 +522,8 @@ class C14(base.Engine):
         nontrivial = set()
         deaths = 0
         recovered = 0
+        sim = 0.0
+        envs = collections.Counter()
         for c, r in pairs:
             if r['verdict'] == 'harness_error':
                 continue
@@ -529,6 +534,8 @@ class C14(base.Engine):
                 sigs.add((ph, fn))
             deaths += st.get('deaths', 0)
             recovered += st.get('recovered_probes', 0)
+            sim += st.get('sim_s', 0)
+            envs[st.get('env')] += 1
             if st.get('deaths'):
                 nontrivial.add(st.get('digest'))
             digests.add(st.get('digest'))
@@ -555,7 +562,8 @@ class C14(base.Engine):
             'state_signature': '(fault phase, helper function in flight)',
             'helper_deaths_injected': deaths,
             'probes_answered_identically_after_recovery': recovered,
-            'simulated_time_s': None,
+            'simulated_time_s': sim,
+            'scenario_environments': {str(k): v for k, v in envs.items()},
         }
 
 
